@@ -139,6 +139,10 @@ class InterpBase:
         # optional reference: decided by branching lazily -> use VOpt over it
         return VOpt(z3.Bool(self.path.fresh_name(name + '.isnone')), inner)
       return VOpt(z3.Bool(self.path.fresh_name(name + '.isnone')), inner)
+    if ty.startswith('const:'):
+      import ast as _ast
+      c = _ast.literal_eval(ty[6:])
+      return VStr(c) if isinstance(c, str) else (VBool(c) if isinstance(c, bool) else (VInt(c) if isinstance(c, int) else NONE))
     if ty == 'int':
       return VInt(z3.Int(self.path.fresh_name(name)))
     if ty == 'nat':
